@@ -24,7 +24,7 @@ CLAIMED = {
     "C04": ("exploration",
             "invariant hook H1 (logical step counter, parent-ref stack) with a budget derived from the size of the acyclic unfolding (O-CYC); crash-isolated workers for fatal stack overflows",
             "All reference graphs over <=2 (thorough <=3) schema nodes with two $ref slots each (targets: any node, dangling, ill-typed incl. null, wrong kind), 11 id variants (absolute, relative file/directory, fragment, nodes referring to each other by id with the authority in normal form / upper case / default port, malformed ids), parameter/response/path-item self-references and cycles not containing the entry, on 1-2 documents, are run through 9 entry points and the 4 SkipSchemas/ContinueOnError combinations, plus random large graphs; non-termination is decided on logical steps (no wall clock), and a $ref pushed twice on the parent stack, a panic or a worker death is a violation.",
-            "Termination restated as bounded progress (8*U+64 steps, 16*U+256 with ids; observed use < 25% of the budget); the open finding (relative-directory ids) is attributed by a counterfactual run with absolute ids.",
+            "Termination restated as bounded progress (8*U+64 steps, 16*U+256 with ids, 64*U+1024 for random worlds with ids; observed use mostly < 25% of the budget); the open finding (relative-directory ids) is attributed by a counterfactual run with absolute ids.",
             "DESIGN.md §3 C04"),
     "C05": ("exploration",
             "reference-model monitor at the API boundary: RFC 3986 + RFC 6901 oracle gives the designated sub-document, compared (after the kind's codec) with what each Resolve* entry point returns for three root representations; root snapshot before/after",
